@@ -15,7 +15,7 @@ RULE = ('String constants: each of the 256 byte values alone, ordered pairs (qui
         'spelled with \\xNN escapes, named escapes or raw text; string and character literals whose characters are all written raw (every control character except line breaks, U+0080-U+00FF, Unicode line/paragraph separators and spaces, BMP and astral boundaries, Hypothesis text) denoting their UTF-8 encoding; character literals for every value (raw where printable, '
         'named escape, \\xNN). Constant arrays of int/byte/bool/string, lengths 0..40, boundary element values, as const '
         'global, mutable global, const local, mutable local and call argument, several per program including '
-        'prefix/zero-padded/identical siblings. Oracles: (i) the emitted assembly assembles on the strict assembler; '
+        'prefix/zero-padded (1-24 zeros)/all-zero/identical siblings. Oracles: (i) the emitted assembly assembles on the strict assembler; '
         '(ii) static: the const/state sections hold exactly length word + bytes per distinct string, and exactly the '
         'packed elements per array label; (iii) dynamic: the program prints .length, write() of the constant and every '
         'element by index, all equal to the denoted bytes. Non-trivial: constants containing a byte outside [0x20,0x7e] or '
@@ -468,8 +468,8 @@ def run_shard(desc, seed, tier):
                 if n and n % 5 == 0:
                     # siblings: zero/false-padded, prefix and identical copies (aliasing / sharing bugs)
                     zero = {'int': 0, 'byte': 0, 'bool': False, 'string': b''}[el]
-                    batch += [vals + [zero] * rnd.randint(1, 7), vals[:-1], list(vals)]
-                    forms += [forms[-1], FORMS[rnd.randrange(5)], forms[-1]]
+                    batch += [vals + [zero] * rnd.randint(1, 7), vals[:-1], list(vals), vals + [zero] * rnd.randint(8, 24), [zero] * (8 + n // 3)]
+                    forms += [forms[-1], FORMS[rnd.randrange(5)], forms[-1], FORMS[rnd.randrange(5)], FORMS[rnd.randrange(5)]]
                 if len(batch) >= 12:
                     for spell in (0, 1):
                         m = check_arrays(stats, el, batch, forms, ws, spell)
